@@ -430,7 +430,7 @@ impl Prop for CanonProp {
         vec!["absent_probe", "present_only_through_unions", "probe_with_redundant_slot", "probe_of_symmetric_class", "shadowing_probe", "probe_under_binder_present"]
     }
     fn rule(&self) -> String {
-        "Every multiset of union/insert operations of the stated depth over the stated alphabets in every distinct ordering is executed from the empty e-graph; then for every tracked (sub)term: the term literally, alpha-renamed, under every injective renaming of its free slots into two 4-name pools, wrapped in u(.), b(.,.), b(., swapped), binding and vacuous lam, and two shadowing terms, is probed: lookup_rec_expr and node-wise lookup succeed iff the oracle (ground congruence closure with inserted terms marked) says the term is represented, change nothing observable, agree with the renamed original handle; add_expr of a represented term creates no class and no node and is eq to the lookup; result slots = free slots minus oracle-redundant ones; add_expr of an absent term creates a class and makes lookup succeed. Non-trivial = probe that is not a literal tracked term.".into()
+        "Every multiset of union/insert operations of the stated depth over the stated alphabets in every distinct ordering is executed from the empty e-graph (the small alphabets a second time on an e-graph with an analysis attached, whose data change on unions); then for every tracked (sub)term: the term literally, alpha-renamed, under every injective renaming of its free slots into two 4-name pools, wrapped in u(.), b(.,.), b(., swapped), binding and vacuous lam, and two shadowing terms, is probed: lookup_rec_expr and node-wise lookup succeed iff the oracle (ground congruence closure with inserted terms marked) says the term is represented, change nothing observable, agree with the renamed original handle; add_expr of a represented term creates no class and no node and is eq to the lookup; result slots = free slots minus oracle-redundant ones; add_expr of an absent term creates a class and makes lookup succeed. Non-trivial = probe that is not a literal tracked term.".into()
     }
     fn assumptions(&self) -> Vec<String> {
         vec!["executions that panic before probing are reported as a no-answer failure (the same defect is also reported by C08 where its exploration reaches it)".into(), "after the first absent probe has been inserted, later 'lookup iff represented' comparisons are skipped because the reference was computed for the e-graph before it".into()]
